@@ -2,27 +2,32 @@ import PwVerif.Model.Exec
 import PwVerif.Model.Cache
 /-!
 # Recovery file / checkpoint, load, and the resumed run
-(transcription of `Node._run_finally` [recovery + checkpoint saves], `Node.__getstate__`-family,
-`Node.load`, `Node._before_run` [cache test], `Composite._on_run` on a restored graph)
+(transcription of `Node._run_finally` [recovery + checkpoint saves], the `__getstate__` family,
+`Node.load`, `Macro.__setstate__`, `Node._before_run` [cache test], `Composite._on_run` on a restored graph)
 
 The FIRST run of a DAG-wired composite is the machine of `Model/Exec.lean` (any fault set `d.fails`,
 any executor assignment, any schedule).  A *cut* is any state `s` that run can reach:
 
 * the end of a failed run (the root's `_run_finally` writes `<root>/recovery`), or
 * the moment right after a child finished and wrote a checkpoint (`graph_root.save()` inside that
-  child's `_run_finally`, before its `ran` signal is queued) — children on executors may be in flight.
+  child's `_run_finally`) — children on executors may be in flight.
 
 What the file holds of one composite level (`snapshot`): per child the flags `failed`/`running`, the
-output value, `_cached_inputs`, and — because `AccumulatingInputSignal.received_signals` is an
-ordinary attribute that is pickled and that neither `_on_run` nor the DAG re-wiring resets — the
-partially filled `received` sets of the all-of triggers.  The signal queue is not used after a load
-(`_on_run` resets it).
+output value, `_cached_inputs`, and — because `AccumulatingInputSignal.received_signals` is an ordinary
+attribute that is pickled — the partially filled `received` sets of the all-of triggers.  The signal
+queue is not used after a load (`_on_run` resets it).
 
-`resumeInit` is the loaded graph after the documented procedure (`failed = False`, and for a
-checkpoint `running = False`, on every node; the cause of the failure removed).  The resumed run is
-the same scheduler (`rstep` mirrors `Exec.step`) with the input cache in front of every child run
-(`rrunNode`): a hit keeps the outputs, registers start+finish with the parent and emits `ran`, without
-calling the function and without using the executor.
+`resumeInit` is the loaded graph after the documented procedure (`failed = False`, and for a checkpoint
+`running = False`, on every node).  "Removing the cause" (`Fix`): no function raises any more, and
+unconnected inputs of some nodes may have new values.  The resumed run is the same scheduler (`rstep`
+mirrors `Exec.step`) with the input cache in front of every child run (`rrunNode`): a hit keeps the
+outputs, registers start+finish with the parent and emits `ran`, without calling the function and
+without using the executor.  A child that is itself a composite comes back without a cache of its own
+(`comp`), so it is always run again — its children answer from their caches, one level down.
+
+`RCfg` switches between the behaviours of the tree as first pinned, as it is now, and as repaired.
+`loadRefused`, `reloadDag`: two ways in which `Node.load` does not give back the graph that was saved.
+`Forest`: who writes which file.
 -/
 namespace PwVerif.Recovery
 open PwVerif PwVerif.Exec
